@@ -10,14 +10,15 @@ Require Import ExcerptModel Model Spec Refine Within Entry Finalize.
 Theorem C10_span_exact :
   forall (g funs : list (list nat * expr)) (ignored : option nat)
          (t : list nat) (rx : nat -> nat -> option nat),
-    (forall r b, nth_error g r = Some ([], b) -> wf g ignored t rx [] b) ->
+    (forall r ps b, nth_error g r = Some (ps, b) -> wf g funs ignored t rx ps b) ->
+    (forall fid ps b, nth_error funs fid = Some (ps, b) -> wf g funs ignored t rx ps b) ->
     (forall r, ignored = Some r -> exists es, nth_error g r = Some ([], Skip es)) ->
-    forall n e sc E s v p', wf g ignored t rx sc e -> scope_of sc E -> sub E (locals s) ->
-      peg g ignored t rx n E e (pos s) = Match v p' ->
+    forall n e sc E s v p', wf g funs ignored t rx sc e -> scope_of sc E -> sub E (locals s) ->
+      peg g funs ignored t rx n E e (pos s) = Match v p' ->
       exists s', exec true g funs ignored t rx n e s = Done s' /\ status s' = true /\ result s' = v /\ pos s' = p'.
 Proof.
-  intros g funs ignored t rx Hg Hi n e sc E s v p' Hw Hs Hl Hp.
-  pose proof (exec_refines_peg g funs ignored t rx Hg Hi n e sc E s Hw Hs Hl) as H.
+  intros g funs ignored t rx Hg Hf Hi n e sc E s v p' Hw Hs Hl Hp.
+  pose proof (exec_refines_peg g funs ignored t rx Hg Hf Hi n e sc E s Hw Hs Hl) as H.
   unfold agree in H. rewrite Hp in H.
   destruct (exec true g funs ignored t rx n e s) as [s'| |]; try contradiction.
   destruct H as (A & B & C & _). eauto.
@@ -28,10 +29,10 @@ Print Assumptions C10_span_exact.
    anywhere in its value lies inside [p, q], the fields of every instance inside
    that instance's own span (lookahead, Backtrack and reads of earlier values aside) *)
 Theorem C10_nested :
-  forall (g : list (list nat * expr)) (ignored : option nat) (t : list nat) (rx : nat -> nat -> option nat),
+  forall (g funs : list (list nat * expr)) (ignored : option nat) (t : list nat) (rx : nat -> nat -> option nat),
     (forall id p q, rx id p = Some q -> p <= q <= length t) ->
     (forall r b, nth_error g r = Some ([], b) -> plain b) ->
-    forall n e E, plain e -> good (length t) (peg g ignored t rx n E) e.
+    forall n e E, plain e -> good (length t) (peg g funs ignored t rx n E) e.
 Proof. exact peg_within. Qed.
 Print Assumptions C10_nested.
 
